@@ -50,6 +50,16 @@ def cases(tier, seed):
             spec = 'dict'
         cs.append({'kind': 'pit', 'prog_seed': seed * 1000003 + 90000 + i, 'family': fam,
                    'spec': spec, 'fold': i % 5 == 0, 'seed': seed * 7919 + i})
+    # a searchable layer invoked twice (equal / different resolution): per-invocation metrics must
+    # charge every call site, shared ones the layer once
+    for i in range(36 if tier == 'quick' else 800):
+        spec = ['ops_no_bias', 'dict', 'ops', 'params_no_bias', 'params', 'gap8'][i % 6]
+        fam = '1d' if (i // 6) % 2 == 0 else '2d'
+        if spec == 'gap8' and fam == '1d':
+            spec = 'ops_no_bias'
+        cs.append({'kind': 'pit', 'reuse': {'same': (i // 3) % 2 == 0, 'with_bn': (i // 12) % 2 == 1},
+                   'prog_seed': seed * 1000003 + 94000 + i, 'family': fam, 'spec': spec,
+                   'fold': (i // 2) % 3 == 0, 'seed': seed * 7723 + i})
     for i in range(80 if tier == 'quick' else 1200):
         cs.append({'kind': 'mps', 'prog_seed': seed * 1000003 + 91000 + i,
                    'mode': ['layer', 'channel', 'channel0'][i % 3],
@@ -157,8 +167,12 @@ def check_gradients(ctx, nas, cost_fn, tag, detail, fd_elements=12, rng=None, pa
 def run_pit(case, ctx):
     from plinio import cost as pc
     rng = random.Random(case['prog_seed'])
-    prog = pitgen.gen_valid_program(rng, family=case['family'], opts={'p_fixed_stem': 0.2,
-                                                                      'allow_fixed': True})
+    if case.get('reuse'):
+        prog = pitgen.reuse_program(rng, case['family'], case['reuse']['same'],
+                                    case['reuse']['with_bn'])
+    else:
+        prog = pitgen.gen_valid_program(rng, family=case['family'], opts={'p_fixed_stem': 0.2,
+                                                                          'allow_fixed': True})
     specs, names = c04.spec_objects({'spec': case['spec']}, prog['family'])
     try:
         model, pit, _ = pitlib.convert_pit(prog, case['seed'], fold_bn=case['fold'], cost=specs,
